@@ -16,17 +16,17 @@ CLAIMED = {
  "C04": ("Lean 4 invariant over the Reader control model for every bufio size / source chunking / read sizes (decoder fed the stream in order, nothing lost or duplicated) + lock-step correspondence + schedule-pair oracle",
          "Proof (partial by nature of the claim): C04_decoder_sees_the_stream, C04_same_stream_same_feed, C04_nothing_left_behind are kernel-checked by induction over Read calls for an arbitrary Sane decoder; that the decoder's output is a function of the fed stream is its contract, validated by the oracle (all-at-once vs scheduled runs over valid and cut streams, boundary families, one byte per read). For TRUNCATED streams the code violates the property by 1-2 trailing bytes: known finding F-C04-1.",
          RT, "DESIGN.md section 6 C04"),
- "C05": ("Lean 4 accounting invariant of the Reader control model (discarded + whole bytes in the bit buffer = bytes taken by the decoder) => exact consumption at io.EOF + lock-step correspondence R + session check F (source position after io.EOF = end of the byte holding the last bit of the final block, computed by the Lean specification inflater) + suffix-intact oracle",
+ "C05": ("Lean 4 accounting invariant of the Reader control model (discarded + whole bytes in the bit buffer = bytes taken by the decoder) => exact consumption at io.EOF; C05_spec_stream_frame / C05_spec_inflater_exact: a stream passing the executable check checkStream decodes to the same data whatever follows and the specification inflater stops exactly behind it (S correspondence: whole streams of the real Writers) + lock-step correspondence R + session check F (source position after io.EOF = end of the byte holding the last bit of the final block, computed by the Lean specification inflater) + suffix-intact oracle",
          "Proof: C05_invariant (every reachable state), C05_exact, C05_position_after_eof (taken = ceil(endBit/8), the unread stream is exactly the suffix) are kernel-checked for every bufio size, chunking and read pattern; tie: R correspondence compares the bytes consumed from the bufio.Reader in lock-step; oracle: stream+suffix over bufio sizes 16..64K, NewReader and Reset, flate/gzip/zlib. Non-bufio ByteReaders are over-read by the library: known finding F-C05-1.",
          RT, "DESIGN.md section 6 C05"),
- "C06": ("Lean 4 round-trip theorems for the gzip and zlib header/trailer formats (parse (emit h) = h for every representable header; trailer = checksum of the concatenated writes) + byte-level correspondence + both-direction interop oracle",
-         "Proof: C06_gzip_header_roundtrip (all optional fields, every level), C06_gzip_trailer, C06_zlib_header_roundtrip / _fcheck (FLEVEL, FDICT, DICTID, FCHECK), C06_zlib_trailer, C06_gzip_member_reads_back, and C06_gzip_writer_emits_member / C06_zlib_writer_emits_stream (after Close, for any accepted call history, the destination holds header ++ one complete DEFLATE stream of the data ++ trailer of the data; inner Writer under its stream contract) are kernel-checked for all headers/payloads/partitions; tie: K correspondence on the bytes fastgo emits and accepts, ZW / GW correspondences on the Writer control flow incl. header and trailer bytes under Reset and injected faults; oracle: fastgo->stdlib and stdlib->fastgo round trips (fields, payload, trailer recomputed) over levels, partitions, Reset reuse, dictionaries.",
+ "C06": ("Lean 4 round-trip theorems for the gzip and zlib header/trailer formats (parse (emit h) = h for every representable header; trailer = checksum of the concatenated writes) + byte-level correspondences K, ZW, GW, whole-file correspondences FG, FZ + both-direction interop oracle",
+         "Proof: C06_gzip_header_roundtrip (all optional fields, every level), C06_gzip_trailer, C06_zlib_header_roundtrip / _fcheck (FLEVEL, FDICT, DICTID, FCHECK), C06_zlib_trailer, C06_gzip_member_reads_back, C06_gzip_member_reads_back_spec (the same with the abstract inflater replaced by the specification inflater, for every body that passes the executable check checkStream), and C06_gzip_writer_emits_member / C06_zlib_writer_emits_stream (after Close, for any accepted call history, the destination holds header ++ one complete DEFLATE stream of the data ++ trailer of the data; inner Writer under its stream contract) are kernel-checked for all headers/payloads/partitions; tie: K correspondence on the bytes fastgo emits and accepts, FG / FZ correspondences (whole gzip files / zlib streams through the real Readers vs the Lean Reader models readAllMembers / readZlib over the specification inflater; C06_zlib_stream_reads_back_spec), ZW / GW correspondences on the Writer control flow incl. header and trailer bytes under Reset and injected faults; oracle: fastgo->stdlib and stdlib->fastgo round trips (fields, payload, trailer recomputed) over levels, partitions, Reset reuse, dictionaries.",
          CT, "DESIGN.md section 6 C06"),
- "C07": ("Lean 4 theorem over the gzip/zlib Read loops with the inflater as an arbitrary environment: io.EOF implies checksum (and length) of the delivered bytes equal the trailer; Read counts are payload counts + truncation/bit-flip oracle",
-         "Proof: C07_gzip_eof_is_checked, C07_zlib_eof_is_checked (for every sequence of inflater answers, every Read size), C07_gzip_counts / C07_zlib_counts, C07_gzip_truncated_trailer; tie: K correspondence and the oracle cutting containers at every byte and flipping bits in header / payload / trailer (default and Multistream(false), FHCRC members, tiny Read buffers).",
+ "C07": ("Lean 4 theorem over the gzip/zlib Read loops with the inflater as an arbitrary environment: io.EOF implies checksum (and length) of the delivered bytes equal the trailer; Read counts are payload counts; K, FG and FZ correspondences + truncation/bit-flip oracle",
+         "Proof: C07_gzip_eof_is_checked, C07_zlib_eof_is_checked (for every sequence of inflater answers, every Read size), C07_gzip_counts / C07_zlib_counts, C07_gzip_truncated_trailer; tie: K correspondence, FG correspondence (whole gzip files - intact, with trailing garbage, cut, bit-flipped - through the real Reader vs the Lean Reader model readAllMembers over the specification inflater: io.EOF iff the model accepts, same payload) and the oracle cutting containers at every byte and flipping bits in header / payload / trailer (default and Multistream(false), FHCRC members, tiny Read buffers).",
          CT, "DESIGN.md section 6 C07"),
- "C08": ("Lean 4 induction over the member list (default multistream loop and Multistream(false)+Reset rounds) using the header round-trip and an exact inflater + member-sequence oracle",
-         "Proof: C08_multistream and C08_member_by_member are kernel-checked for every list of members (any representable headers, payloads incl. empty) and any trailing data, under the inflater contract Exact (decodes the body, leaves the source exactly after it = C02+C05); oracle: 1..k members from both encoders, empty members, trailing garbage, bufio sizes 16..1M.",
+ "C08": ("Lean 4 induction over the member list (default multistream loop and Multistream(false)+Reset rounds) using the header round-trip and an exact inflater; K and FG correspondences + member-sequence oracle",
+         "Proof: C08_multistream and C08_member_by_member are kernel-checked for every list of members (any representable headers, payloads incl. empty) and any trailing data, under the inflater contract Exact (decodes the body, leaves the source exactly after it = C02+C05; specInflater_exact proves the specification inflater meets it on every stream passing checkStream); FG correspondence: the real gzip Reader vs the Lean member loop over the specification inflater on whole files; oracle: 1..k members from both encoders, empty members, trailing garbage, bufio sizes 16..1M.",
          CT, "DESIGN.md section 6 C08"),
  "C09": ("Lean 4 theorem Write(a++b) = Write a; Write b over the chunked Accumulate/Compress loop for arbitrary leaves, lifted to any two partitions + lock-step correspondence + partition-pair oracle with buffer-edge cuts",
          "Proof: C09_write_append, C09_partition, C09_later_ops are kernel-checked by strong induction over the data for every leaf algorithm, every buffer state (incl. pending slide) and window > 0; tie: W correspondence; oracle: pairs of partitions with identical Flush positions, cuts aligned to the buffer fill/slide edges, zero-length writes, all accelerated settings and levels.",
